@@ -216,8 +216,9 @@ def hypotheses(o):
     live = {}          # (t) -> list of (c, f, s) live segments stack (per thread, by events)
     inflight = {}      # (f, s) -> True when a line of registered code is open
     thr = {}
-    res = dict(NoCollision=True, SegmentsClosed=True, LinesKnown=True, LabelsDistinct=True, NonReentrant=True)
+    res = dict(NoCollision=True, SegmentsClosed=True, LinesKnown=True, LabelsDistinct=True, NonReentrant=True, SnapsQuiescent=True)
     wit = {}
+    nsnap = 0
     executed = set()
     open_seg = {}      # t -> dict c -> set of (f,s) with an open line
     for op in o['ops']:
@@ -237,8 +238,12 @@ def hypotheses(o):
         elif k == 'S':
             for t, d in open_seg.items():
                 if any(v for v in d.values()):
-                    res['SegmentsClosed'] = False
-                    wit.setdefault('SegmentsClosed', 'snapshot with a line in flight')
+                    # the line being executed is counted when it ends: this snapshot is judged by the model (and the
+                    # theorem's in_flight term) only, the others by the specification as usual
+                    res['SnapsQuiescent'] = False
+                    wit.setdefault('inflight_snaps', []).append(nsnap)
+                    break
+            nsnap += 1
         elif k in ('L', 'R'):
             _, t, c, f, s, l = op
             executed.add(c)
@@ -353,6 +358,18 @@ def snaps_wf_monotone(o):
     return True, ''
 
 
+def peeks_below_final(o):
+    """Reads taken by a monitoring thread while workers run: well-formed and never above the final snapshot."""
+    final = {lbl: {l: (h, t) for l, h, t in ents} for lbl, ents in o['snaps'][-1]['timings']}
+    for pk in o['peeks']:
+        for lbl, ents in pk:
+            for l, h, t in ents:
+                f = final.get(lbl, {}).get(l)
+                if h < 1 or t < 0 or f is None or f[0] < h or f[1] < t:
+                    return False, 'a mid-run read showed (%d,%d,%d) for label %d, the final snapshot shows %r' % (l, h, t, lbl, f)
+    return True, ''
+
+
 def classify(o, hyp, wit, aspect):
     """Map a failing case to a known-finding id by the hypothesis it falls outside of."""
     if not hyp['NoCollision']:
@@ -410,7 +427,7 @@ def run_property(prop, module, theorems, tier, seed, nquick, nthorough, feature_
         verdict, errors = coq_verdicts(prop.lower(), programs, outs, with_time)
         for e in errors:
             res.infra_errors.append('shard failed: ' + e[-400:])
-    hyp_counts = dict(NoCollision=0, SegmentsClosed=0, LinesKnown=0, LabelsDistinct=0, NonReentrant=0, all=0)
+    hyp_counts = dict(NoCollision=0, SegmentsClosed=0, LinesKnown=0, LabelsDistinct=0, NonReentrant=0, SnapsQuiescent=0, all=0)
     nontrivial = set()
     nevents = 0
 
@@ -426,17 +443,26 @@ def run_property(prop, module, theorems, tier, seed, nquick, nthorough, feature_
         ok, why = True, ''
         outside = not hyp['SegmentsClosed']     # code that switches its own profiler off mid-line: model only
         if o.get('not_registered'):
-            ok, why = False, 'add_module did not register %r' % (o['not_registered'],)
+            ok, why = False, 'registration entry point did not register %r' % (o['not_registered'],)
+        elif o.get('impure'):
+            ok, why = False, 'reading the statistics performed profiler operations [mode, op]: %r' % (o['impure'][:3],)
         elif aspect in ('hits', 'time') and not outside:
-            if [spec_hits(s) for s in spec] != [impl_hits(x) for x in o['snaps']]:
-                ok, why = False, 'reported hit counts differ from the executed line events'
-            elif aspect == 'time' and not p['threads'] and spec != impl_s:
-                ok, why = False, 'reported times differ from the per-activation specification'
+            skip = set(wit.get('inflight_snaps', []))
+            if len(spec) != len(impl_s):
+                ok, why = False, 'number of snapshots differs: %d expected, %d delivered' % (len(spec), len(impl_s))
+            else:
+                q = [i for i in range(len(spec)) if i not in skip]
+                if [spec_hits(spec[i]) for i in q] != [impl_hits(o['snaps'][i]) for i in q]:
+                    ok, why = False, 'reported hit counts differ from the executed line events'
+                elif aspect == 'time' and not p['threads'] and [spec[i] for i in q] != [impl_s[i] for i in q]:
+                    ok, why = False, 'reported times differ from the per-activation specification'
         if aspect == 'mono':
             ok, why = snaps_wf_monotone(o)
         if ok and aspect in ('hits', 'time') and not outside and 'selfdisable' not in p['features']:
             # (programs whose functions switch their own profiler off legitimately run lines unprofiled)
             ok, why = wrapped_always_enabled(o)
+        if ok and o.get('peeks') and o.get('snaps'):
+            ok, why = peeks_below_final(o)
         if p['threads']:
             if any(v != 0 for v in o.get('counts', {}).values()) or not o.get('gettrace_clear', True) or not o.get('tool_free', True):
                 ok, why = False, 'enable count / trace slot / tool not released after the threads finished: %r' % (o.get('counts'),)
@@ -474,6 +500,7 @@ def run_property(prop, module, theorems, tier, seed, nquick, nthorough, feature_
         if v is not None:
             coq_ok = {'hits': v[1], 'time': v[1] and v[2], 'mono': v[3]}[aspect]
             if coq_ok != ok and not p['threads'] and (o.get('errA') == o.get('errB')) and hyp.get('SegmentsClosed', True) \
+                    and hyp.get('SnapsQuiescent', True) and not o.get('impure') and 'mid-run read' not in why \
                     and not o.get('not_registered') and 'decorated function' not in why:
                 res.infra_errors.append('Coq-side and Python-side specification disagree on program %d (%s vs %s: %s)' % (i, coq_ok, ok, why))
         if not ok:
